@@ -11,9 +11,9 @@ def lockRank : String → Option Nat
   | "reorged" => some 1
   | "carrier" => some 2
   | "tx_index" => some 3
-  | "reachable" => some 4
-  | "users" => some 5
-  | "db" => some 6
+  | "users" => some 4
+  | "db" => some 5
+  | "reachable" => some 6
   | _ => none
 
 /-- may lock `b` be acquired while `a` is held -/
